@@ -381,6 +381,11 @@ def check_clone(case, ctx):
 
 
 def check(case, ctx):
+    cons = [c for st_ in case["spec"].get("substages", []) for c in st_.get("constraints", [])] if case["kind"] == "compose" else \
+        list(case["template"].get("constraints", [])) + [case["extra"]]
+    if any(c04.degenerate(c) for c in cons):
+        ctx.count("relation_collapses_symbolically")
+        return []
     return check_compose(case, ctx) if case["kind"] == "compose" else check_clone(case, ctx)
 
 
